@@ -46,3 +46,19 @@ Theorem C07_repetition_composes_in_place : forall orbit sp sp' sp'' pre b lo hi 
   exists n, in_bounds n lo hi /\ Lang orbit (TCat sp (pre ++ TCat sp'' (repeat b n) :: post)) w.
 Proof. exact lang_rep_in_place. Qed.
 Print Assumptions C07_repetition_composes_in_place.
+
+From WaxModel Require Import Variance Fold Rule Parse Query Glob.
+From WaxProofs Require Import AlgebraFacts OwnedFacts NegationFacts BuiltFacts.
+
+(* the combinator itself, at the level of the documented language: the tree that `any` builds from its patterns (re-annotated,
+   under one alternation) has as language exactly the union of the languages of the patterns *)
+Theorem C07_combinator_language_is_the_union : forall orbit ts t w, Forall tok_bounds_ok ts -> any_tree ts = Ok t ->
+  (Lang orbit t w <-> exists a, In a ts /\ Lang orbit a w).
+Proof. exact any_tree_lang. Qed.
+Print Assumptions C07_combinator_language_is_the_union.
+
+(* for globs that build, `any` never fails and the side condition is discharged *)
+Theorem C07_combinator_of_built_globs_is_total : forall ts, Forall (fun t => exists e r, build e = BuildOk t r) ts ->
+  any_tree ts = Ok (TAlt (0, 0)%N (map (respan (fun _ => (0, 0)%N)) ts)).
+Proof. exact built_any_total. Qed.
+Print Assumptions C07_combinator_of_built_globs_is_total.
